@@ -108,7 +108,7 @@ class Highlighter(object):
             # The source cannot be tokenized (it changed since it was executed,
             # or it is not Python at all): show it without highlighting
             return [
-                "<{}>{}</>".format(self._theme[self.TOKEN_DEFAULT], _strip_tags(line))
+                self._styled(self.TOKEN_DEFAULT, _strip_tags(line))
                 for line in source.split("\n")
             ]
 
@@ -151,7 +151,7 @@ class Highlighter(object):
                     # The source is empty (or could not be read)
                     current_type = self.TOKEN_DEFAULT
 
-                line += "<{}>{}</>".format(self._theme[current_type], buffer)
+                line += self._styled(current_type, buffer)
                 lines.append(line)
                 break
 
@@ -164,9 +164,7 @@ class Highlighter(object):
                     # Nothing but a line continuation so far
                     current_type = self.TOKEN_DEFAULT
 
-                line += "<{}>{}</>".format(
-                    self._theme[current_type], buffer.rstrip("\n")
-                )
+                line += self._styled(current_type, buffer.rstrip("\n"))
 
                 # A line continuation is not a token: keep the backslash
                 rest_of_line = read_lines[current_line - 1][current_col:].rstrip()
@@ -204,7 +202,7 @@ class Highlighter(object):
                 buffer += token_info.line[current_col : start[1]]
 
             if current_type != new_type:
-                line += "<{}>{}</>".format(self._theme[current_type], buffer)
+                line += self._styled(current_type, buffer)
                 buffer = ""
                 current_type = new_type
 
@@ -214,7 +212,7 @@ class Highlighter(object):
                 token_lines = token_string.split("\n")
                 for token_line in token_lines[1:-1]:
                     lines.append(
-                        "<{}>{}</>".format(self._theme[current_type], token_line)
+                        self._styled(current_type, token_line)
                     )
 
                 current_line = end[0]
@@ -227,6 +225,16 @@ class Highlighter(object):
             current_line = lineno
 
         return lines
+
+    def _styled(self, token_type, text):
+        # A backslash right in front of the closing tag would escape it:
+        # text that ends with backslashes (a comment, say) keeps them outside
+        body = text.rstrip("\\")
+        if not body:
+            # Nothing to style - and no tag for the backslash to end up in front of
+            return text
+
+        return "<{}>{}</>{}".format(self._theme[token_type], body, text[len(body) :])
 
     def line_numbers(self, lines, mark_line=None):
         max_line_length = max(3, len(str(len(lines))))
